@@ -87,3 +87,13 @@ Theorem C03_dependent_calls_all_finish :
     forall i, In i (subm (dbase d)) -> fdone (getf (dbase d) i) = true.
 Proof. intros c n prog d k H1 H2 H3 H4 H5 H6 H7. exact (proj1 (proj2 (dep_rest c n prog d k H1 H2 H3 H4 H5 H6 H7))). Qed.
 Print Assumptions C03_dependent_calls_all_finish.
+
+(* the same with the per-call-process executor underneath (requests that fit) *)
+Theorem C03_dependent_calls_all_finish_percall :
+  forall c n prog d,
+    dinner c = IStep -> StepLive.fits (dx c) -> (forall i, xraises (dx c) i = false) ->
+    wf_prog n prog -> wf_deps c n -> dreach c (dinit n prog) d ->
+    denabled c d = [] ->
+    forall i, In i (subm (dbase d)) -> fdone (getf (dbase d) i) = true.
+Proof. intros c n prog d H1 H2 H3 H4 H5 H6 H7. exact (proj1 (proj2 (dep_rest_step c n prog d H1 H2 H3 H4 H5 H6 H7))). Qed.
+Print Assumptions C03_dependent_calls_all_finish_percall.
